@@ -826,8 +826,8 @@ class C18(Prop):
                    "statement; the oracle accepts any line of the statement's extent)",
                    "argument and local variable VALUES printed by dump_trace with ArgumentsInTrace / LocalVariablesInTrace "
                    "(svalue_to_string); only which lines are printed for which frame is modelled",
-                   "errors raised inside the master's error handler (in_error / in_mudlib_error_handler paths) and the "
-                   "heart-beat switch-off of error_handler()",
+                   "an error raised while the driver itself prints a trace (in_error path) and fatal(); errors inside the master's "
+                   "error handler and the heart-beat switch-off are observed only (no crash, report counts)",
                    "more than 65535 absolute lines in one compilation unit (open finding C18-F3)",
                    "the text of compile-time messages other than file and line (J8 fixes the first words only)"]
 
